@@ -49,6 +49,8 @@ var reflectNatives = map[string]interface{}{
 	"strings.TrimRight":   strings.TrimRight,
 	"strings.ToLower":     strings.ToLower,
 	"strings.ToUpper":     strings.ToUpper,
+	"strings.Clone":       strings.Clone,
+	"internal/stringslite.Clone": func(s string) string { return strings.Clone(s) },
 	"strings.Cut":         strings.Cut,
 	"strings.HasPrefix":   strings.HasPrefix,
 	"strings.HasSuffix":   strings.HasSuffix,
@@ -239,6 +241,7 @@ func init() {
 		// ---- strconv with symbolic markers ----
 		"strconv.Atoi":     extAtoi,
 		"strconv.ParseInt": extParseInt,
+		"strconv.ParseUint": extParseUint,
 
 		// ---- errors / fmt ----
 		"errors.Is":    extErrorsIs,
@@ -498,6 +501,28 @@ func extVhConcrete(fr *frame, a []value) value {
 }
 
 // ---- strconv ----
+
+// extParseUint: a marker denotes the decimal numeral of a signed 64-bit value v; parsed as
+// unsigned it is a syntax error for v < 0 (a fork) and v otherwise.
+func extParseUint(fr *frame, a []value) value {
+	s := a[0].(string)
+	base, bits := int(asInt64(a[1])), int(asInt64(a[2]))
+	if v, ok := fr.i.natives.markers[s]; ok && (base == 10 || base == 0) && (bits == 64 || bits == 0) {
+		neg := fr.i.concretizeValue(binop(tokLSS, tInt64, tInt64, sym{v}, int64(0)), tBoolType, "ParseUint sign").(bool)
+		if neg {
+			return tuple{uint64(0), fr.i.makeError("strconv.ParseUint: parsing " + strconv.Quote(s) + ": invalid syntax")}
+		}
+		return tuple{symConv(types.Typ[types.Uint64], tInt64, sym{v}), iface{}}
+	}
+	if strings.Contains(s, markerPrefix) {
+		panic(engineError{"marker string was altered before reaching strconv.ParseUint: " + s})
+	}
+	n, err := strconv.ParseUint(s, base, bits)
+	if err != nil {
+		return tuple{n, fr.i.makeError(err.Error())}
+	}
+	return tuple{n, iface{}}
+}
 
 func extAtoi(fr *frame, a []value) value {
 	s := a[0].(string)
